@@ -31,7 +31,7 @@ def check(ctx: Ctx):
         "(NONETEST), effect rule on the input (EFFECT) and emptiness guard before cdist (EMPTY)."
     )
     tracking.check_overlap_matcher(ctx, rules=("PATHCOUNT", "TIME", "CONT"))
-    tracking.check_distance_matcher(ctx, rules=("PATHCOUNT", "TIME", "INDEX"))
+    tracking.check_distance_matcher(ctx, rules=("PATHCOUNT", "TIME", "INDEX", "GREEDY"))
     tracking.check_main_loop(ctx)
     tracking.check_track_append(ctx)
     tracking.check_input_untouched(ctx)
